@@ -244,7 +244,7 @@ PROPS_EXTRA['C11']['assumptions'] = [
     '`self == UTF_8` etc. (address comparison of &\'static Encoding) is modelled as a test on the variant; variant_identifies re-checks on the regenerated Gen.encodings that each such variant belongs to exactly the encoding of that name and that is_potentially_borrowable agrees with the index list extracted from lib.rs; outputEncoding_utf8_iff does the same for the `output_encoding == UTF_8` test of encode']
 PROPS_EXTRA['C11']['correspondences'] = [
     'oneshot: Encoding::decode / decode_with_bom_removal / decode_without_bom_handling / decode_without_bom_handling_and_without_replacement impl (UTF-8 bytes of the result | None, encoding used, had_errors, Cow::Borrowed?) = Model.OneShot.decode / decodeWithBomRemoval / decodeWithoutBomHandling / decodeWithoutBomHandlingAndWithoutReplacement on every generated (encoding, input)',
-    'oneshotenc: Encoding::encode impl (bytes, encoding used, had_unmappables, Cow::Borrowed?) = Model.OneShot.encode (capacity arithmetic executed, exact allocator, inner calls never stopped early) on every generated (encoding, text) up to 130 bytes and every 8th longer one']
+    'oneshotenc: Encoding::encode impl (bytes, encoding used, had_unmappables, Cow::Borrowed?) = Model.OneShot.encode (capacity arithmetic executed, exact allocator, inner calls never stopped early) on every generated (encoding, text) up to 130 bytes and every 8th (thorough: 24th) longer one']
 PROPS_EXTRA['C11']['partial'] = [
     'encode_terminates_partial (NOT a theorem): that the loop of Encoding::encode returns is not proved for any policy; encodeV_eq_stream / encodeV_borrow_iff / encodeV_conforms / encodeV_eq_any_history are statements about every run of the model that returns (any stop policy, slack, number of reserve rounds). The driver runs the model with fuel 10*len+16 on every oneshotenc line and would print `diverges` (a model disagreement); the oracle compares the real function with the streaming Encoder on every generated text',
     'the `.unwrap()` / next_power_of_two overflow of encode is modelled (outcome `panic`) but no length precondition that excludes it is proved (for the decode functions: 3*len+13 <= usize::MAX, without_replacement_panic_length / decode_without_bom_handling_panic_length)',
@@ -253,7 +253,7 @@ PROPS_EXTRA['C11']['partial'] = [
     'pointer aliasing of a borrow is observed (harness), not proved']
 PROPS_EXTRA['C11']['rule'] = PROPS_EXTRA['C11']['rule'].replace(
     'over all 40 encodings, oracle only.',
-    'over all 40 encodings plus 150 (thorough 1500) random texts per encoding; oracles (bytes / had_unmappables / encoding used = streaming Encoder in one call and 7-byte chunks, Borrowed iff documented + aliasing, no panic) on every text, operation line `oneshotenc` for the model for every text up to 130 bytes and every 8th longer one.')
+    'over all 40 encodings plus 150 (thorough 1500) random texts per encoding; oracles (bytes / had_unmappables / encoding used = streaming Encoder in one call and 7-byte chunks, Borrowed iff documented + aliasing, no panic) on every text, operation line `oneshotenc` for the model for every text up to 130 bytes and every 8th (thorough: 24th) longer one.')
 PROPS_EXTRA['C11']['trusted'] = PROPS_EXTRA['C11']['trusted'] + [
     'encoder side: relational call model Model.ecall / Model.encRepl and the per-character step functions of Model/EncFam.lean (tied by the enc correspondence of C03/C04/C12), Spec/Encode.lean (the Standard\'s encoders) for encodeV_conforms',
     'Vec::with_capacity / reserve_exact / next_power_of_two of alloc/core behave as documented']
